@@ -42,17 +42,33 @@ def conc_case(draw, with_schedule=False):
     sem = Sem(d["defs"], cfg)
     nthreads = draw(st.sampled_from([2, 2, 3]))
     datas = []
+    root_t = sem.res(gens.ROOT)
+    ptr_keys = [refsem.fkey(f, i) for i, f in enumerate(root_t["fields"]) if sem.res(f["t"])["k"] == "p" and sem.res(sem.res(f["t"])["t"])["k"] != "p"]
+    addr_pick = draw(st.integers(0, 10_000))
     for _ in range(nthreads):
         v = gens.gen_value(draw, sem, gens.ROOT)
         enc = bytes(sem.encode(gens.ROOT, v))
+        if ptr_keys and len(enc) > 4:
+            # pointers that are dereferenced INSIDE the thread: an address within this thread's own input (the same
+            # number in every thread, so per-pointer-class state keyed by address would show)
+            for kk in ptr_keys:
+                v[kk] = 1 + addr_pick % (len(enc) - 3)
+            enc = bytes(sem.encode(gens.ROOT, v))
         mask = bytearray(len(enc))
         sem.decode(gens.ROOT, enc, 0, mask)
         datas.append((gens.fill_garbage(draw, enc, mask, tail=False) + bytes(4)).hex())
+    from hypothesis import assume
+
+    assume(len(set(datas)) > 1)  # identical inputs cannot show a mix-up
     case = {"defs": d["defs"], "root": "Root", "cfg": cfg, "datas": datas}
     if with_schedule:
         k = draw(st.integers(1, 4))
-        case["schedule"] = sorted({(draw(st.integers(1, 400)), draw(st.integers(0, nthreads - 1))) for _ in range(k)})
-        case["schedule"] = [list(x) for x in case["schedule"]]
+        # pre-emption points as permille of the run's total number of line steps (resolved at run time), each handing
+        # over to a drawn thread
+        case["schedule_permille"] = sorted([draw(st.integers(0, 999)), draw(st.integers(0, nthreads - 1))] for _ in range(k))
+    if with_schedule == "cold":
+        case["cold"] = True
+        case.pop("schedule_permille", None)
     return case
 
 
@@ -90,14 +106,17 @@ def run_case(case, ctx):
     n = len(datas)
     solo = []
     for d in datas:
-        r = lib(_thunk(T, m, d))
+        # "running alone": on a freshly loaded definition, so nothing another parse left on the type objects is in it
+        Ts = common.load(case).Root
+        r = lib(_thunk(Ts, m, d))
         solo.append(("exc", r.type) if isinstance(r, Err) else _outcome(("ok", r)))
     desc = lambda extra=None: common.describe(dict(case, data=None), dict({"inputs": case["datas"]}, **(extra or {})))  # noqa: E731
 
-    def run(preempt):
-        sc = sched.Scheduler(n, preempt)
+    def run(preempt, record=False):
+        sc = sched.Scheduler(n, preempt, record=record)
+        Tr = common.load(case).Root if case.get("cold") else T  # cold: the very first use of these type objects is concurrent
         try:
-            res = sc.run([_thunk(T, m, d) for d in datas])
+            res = sc.run([_thunk(Tr, m, d) for d in datas])
         except sched.Stuck as e:
             raise HarnessError(str(e)) from None
         return sc, [_outcome(r) for r in res]
@@ -114,6 +133,11 @@ def run_case(case, ctx):
     differ = len(set(case["datas"])) > 1
     runs = 0
     switched = 0
+    if "schedule_permille" in case and "schedule" not in case:
+        base0, outs0 = run({})
+        judge(base0, outs0, {})
+        total = max(1, sum(base0.steps_of))
+        case = dict(case, schedule=sorted([1 + pm * total // 1000, t] for pm, t in case["schedule_permille"]))
     if "schedule" in case:
         preempt = {int(s): int(t) for s, t in case["schedule"]}
         sc, outs = run(preempt)
@@ -133,7 +157,28 @@ def run_case(case, ctx):
                 judge(sc, outs, {s: tgt})
                 runs += 1
                 switched += len(sc.switches)
-        ctx.count("k1:line-steps-of-thread0", n0)
+        ctx.count("k1-cold:line-steps-of-thread0" if case.get("cold") else "k1:line-steps-of-thread0", n0)
+        if not case.get("cold"):
+            # rendezvous: thread 0 is parked INSIDE a function, thread 1 enters the same function and is parked inside it
+            # too, thread 0 continues (a save/restore discipline on shared scratch state survives every single pre-emption)
+            rec, _ = run({}, record=True)
+            by_fn = {}
+            for stp, th, fn in rec.trace:
+                if th == 0:
+                    by_fn.setdefault(fn, []).append(stp)
+            fns = sorted(by_fn, key=lambda f_: (-len(by_fn[f_]), f_))[:10]
+            rz = 0
+            for fn in fns:
+                steps0 = by_fn[fn]
+                for s1 in sorted({steps0[0], steps0[len(steps0) // 2], steps0[-1]}):
+                    sc1, outs1 = run({s1: 1}, record=True)
+                    inside = [stp for stp, th, f_ in sc1.trace if th == 1 and f_ == fn and stp > s1]
+                    for s2 in sorted({inside[0], inside[len(inside) // 2], inside[-1]}) if inside else []:
+                        sc2, outs2 = run({s1: 1, s2: 0})
+                        judge(sc2, outs2, {s1: 1, s2: 0})
+                        runs += 1
+                        rz += 1
+            ctx.count("k1:rendezvous-schedules", rz)
         if switched and differ:
             ctx.mark_nontrivial([case["defs"], case["cfg"], case["datas"]])
     ctx.evaluations += max(0, runs - 1)
@@ -152,6 +197,7 @@ def run_case(case, ctx):
 def stages(tier):
     q = tier == "quick"
     return [
-        HypStage("k1-exhaustive", conc_case, examples=4 if q else 40, shards=8 if q else 16),
+        HypStage("k1-exhaustive", conc_case, examples=3 if q else 40, shards=8 if q else 16),
         HypStage("random-k4", lambda: conc_case(with_schedule=True), examples=200 if q else 3000, shards=4 if q else 8),
+        HypStage("k1-cold", lambda: conc_case(with_schedule="cold"), examples=1 if q else 10, shards=4 if q else 8),
     ]
